@@ -268,6 +268,16 @@ Section Rec.
     let inner := pt ++ [typ] ++ repeat 0 pad in
     (aead_seal (k_enc s) (nonce_xor s) (aad13 23 3 3 (length inner + tagl)) inner, bump s).
 
+  (* tls13GetPadLen (tls13Encode.c 98-118) with psRoundUpToBlockSize (cryptolib.h 796): zero bytes that make the
+     TLSInnerPlaintext a multiple of tls13BlockSize, capped at the maximal inner plaintext 2^14 + 1 *)
+  Definition tls13_pad_len (bs len : N) : N :=
+    let bound := ((len + 1 + bs - 1) / bs) * bs in
+    let bound := if rn_TLS_1_3_MAX_INNER_PLAINTEXT_LEN <? bound then rn_TLS_1_3_MAX_INNER_PLAINTEXT_LEN else bound in
+    bound - 1 - len.
+  (* matrixSslSetTls13BlockPadding(ssl, bs) then tls13EncodeAppData *)
+  Definition seal_tls13_block (s : rst) (bs : N) (typ : N) (pt : bytes) : bytes * rst :=
+    seal_tls13 s (N.to_nat (tls13_pad_len bs (nlen pt))) typ pt.
+
   (* the same receiver BEFORE pending-fixes/C02-tls13-aad-from-received-header.patch: AAD from constants *)
   Definition open_tls13_orig (gcm : bool) (s : rst) (typ maj min : N) (body : bytes) : ores :=
     open_tls13 gcm s 23 3 3 body.
